@@ -22,6 +22,22 @@ type Kv = Vec<(Vec<u8>, u64)>;
 type Items = Vec<(Vec<u8>, Vec<(usize, u64)>)>;
 
 // ---------- user streamers ----------
+// They are deliberately NOT inert after exhaustion (`Streamer`, like `Iterator`, gives no "fused" guarantee - think
+// of a paged cursor): polled again after having returned None, they yield one key that belongs to no input.
+static POISON: [u8; 4] = [0xFF, 0xFE, 0xFD, 0xFC];
+fn after_end(i: &mut usize, len: usize) -> bool {
+    // i == len: the regular end (None); i == len + 1: polled again -> poison once; later: None
+    if *i == len {
+        *i += 1;
+        false
+    } else if *i == len + 1 {
+        *i += 1;
+        xcount("user_stream_polled_after_none");
+        true
+    } else {
+        false
+    }
+}
 struct VecRaw {
     v: Kv,
     i: usize,
@@ -33,6 +49,8 @@ impl<'a> Streamer<'a> for VecRaw {
             self.i += 1;
             let (k, v) = &self.v[self.i - 1];
             Some((&k[..], Output::new(*v)))
+        } else if after_end(&mut self.i, self.v.len()) {
+            Some((&POISON[..], Output::new(0xDEAD)))
         } else {
             None
         }
@@ -49,6 +67,8 @@ impl<'a> Streamer<'a> for VecMap {
             self.i += 1;
             let (k, v) = &self.v[self.i - 1];
             Some((&k[..], *v))
+        } else if after_end(&mut self.i, self.v.len()) {
+            Some((&POISON[..], 0xDEAD))
         } else {
             None
         }
@@ -64,6 +84,8 @@ impl<'a> Streamer<'a> for VecSet {
         if self.i < self.v.len() {
             self.i += 1;
             Some(&self.v[self.i - 1].0[..])
+        } else if after_end(&mut self.i, self.v.len()) {
+            Some(&POISON[..])
         } else {
             None
         }
